@@ -209,6 +209,7 @@ for _pid, _x in EXTRA5.items():
     CLAIMS[_pid] = (_c[0], _c[1], _c[2] + _x, _c[3], _c[4])
 
 EXTRA6 = {
+    'C20': ' A source with two rules of one policy whose field values concatenate to the same string: every generated table keeps a row of its own for each (imported Python tables against the in-memory map).',
     'C16': ' A manager with fewer cached processors than zones in play: a zone used twice, evicted by two other zones and used again, and its restored counterpart, answer like a zone with a processor of its own (every zone of both registries).',
 }
 for _pid, _x in EXTRA6.items():
